@@ -96,9 +96,10 @@ class CircuitOpSerializer(OpSerializer):
                 f'Encountered a circuit not in the constants table. Full error message:\n{err}'
             )
 
-        if (
-            op.repetition_ids is not None
-            and op.repetition_ids != circuit_operation.default_repetition_ids(op.repetitions)
+        if op.repetition_ids is not None and (
+            op.repetition_ids != circuit_operation.default_repetition_ids(op.repetitions)
+            # Ids that are not in use are not regenerated from the count when reading it back.
+            or not op.use_repetition_ids
         ):
             if isinstance(op.repetitions, (int, np.integer)) and op.repetitions < 0:
                 # The message holds either a count or a list of ids; the list cannot carry the sign.
